@@ -190,6 +190,28 @@ def _resort_eq(text):
     return text
 
 
+_LIT_CMP = None
+
+
+def _fold(text):
+    """Truth value of an atom that compares two integer literals, or one pure operand with itself; else None."""
+    global _LIT_CMP
+    import re as _re
+    if _LIT_CMP is None:
+        _LIT_CMP = _re.compile(r"\((-?\d+) (==|<) (-?\d+)\)")
+    m = _LIT_CMP.fullmatch(text)
+    if m:
+        a, b = int(m.group(1)), int(m.group(3))
+        return a == b if m.group(2) == "==" else a < b
+    if text.startswith("(") and text.endswith(")") and "(" not in text[1:-1]:
+        for op in (" == ", " < "):
+            if op in text:
+                a, b = text[1:-1].split(op, 1)
+                if a == b:
+                    return op == " == "
+    return None
+
+
 class _PathState:
     """Per-path value numbering for reassigned locals (versioned mode): `?v1` becomes `?v1#k` after its k-th
     assignment, and `?v1#k` is replaced by the canonical text of what was assigned, so that `ok = f(); if (ok)`,
@@ -217,7 +239,20 @@ class _PathState:
     def alts(self, subs, ver=None):
         if not self.on:
             return subs
-        return [[(_resort_eq(self.r(t, ver)), p) for t, p in s_] for s_ in subs]
+        out = []
+        for s_ in subs:
+            alt, feasible = [], True
+            for t, p in s_:
+                t2 = _resort_eq(self.r(t, ver))
+                v = _fold(t2)
+                if v is None:
+                    alt.append((t2, p))
+                elif v != p:
+                    feasible = False          # a comparison of two constants that cannot have this outcome
+                    break
+            if feasible:
+                out.append(alt)
+        return out
 
     def _name_of(self, eff):
         """(canonical name, variable id) of the whole variable an effect writes, else (None, None)."""
